@@ -68,7 +68,7 @@ def run_walgroup(ctx, replay=None):
         # the sensitivity runs end with a violation by design: they are not part of the exhaustive coverage figures
         ctx.cov['tlc_runs'][-1]['exhaustive'] = False
         tlc.cleanup(r)
-    for name in (['g', 'q'] if quick else ['g', 'q', 't']):
+    for name in (['g', 'q'] if quick else ['g', 'q', 't', 'x']):
         dump = name == 'g'
         r = engine.tlc_check(ctx, WALSPEC, 'MC_WalGroup.tla', 'MC_WalGroup_%s.cfg' % name, name='WalGroup/' + name, dump=dump,
                              workers=8, timeout=900 if quick else 3600)
